@@ -91,7 +91,8 @@ def parse_embedded_scalar(scalar, version=LATEST_VER):
         if version < VER_3_0:
             raise ValueError('Lists are not supported in Haystack version %s' \
                              % version)
-        return list(map(functools.partial(parse_scalar, version=version),
+        # (the elements are decoded JSON already, not JSON text)
+        return list(map(functools.partial(parse_embedded_scalar, version=version),
                         scalar))
     elif isinstance(scalar, dict):
         # We support this only in version 3.0 and up.
@@ -102,7 +103,8 @@ def parse_embedded_scalar(scalar, version=LATEST_VER):
                 or {"meta", "cols", "rows"} <= scalar.keys():  # Check if grid in grid
             return parse_grid(scalar)
         else:
-            return {k: parse_scalar(v, version=version) for (k, v) in scalar.items()}
+            # (the values are decoded JSON already, not JSON text)
+            return {k: parse_embedded_scalar(v, version=version) for (k, v) in scalar.items()}
     elif scalar == MARKER_STR:
         return MARKER
     elif scalar == NA_STR:
